@@ -165,6 +165,7 @@ pub fn copy_dir(from: &std::path::Path, to: &std::path::Path) {
 
 pub struct C06 {
     pub letters: Vec<L>,
+    pub extra_roots: bool,
 }
 
 impl C06 {
@@ -194,12 +195,12 @@ impl C06 {
             l.push(L::Snapshot { reclaim: true, order: o });
         }
         l.push(L::Restart);
-        C06 { letters: l }
+        C06 { letters: l, extra_roots: true }
     }
 }
 
 fn v(clause: &str, detail: String) -> Vec<StepViolation> {
-    vec![StepViolation { clause: clause.to_string(), detail }]
+    vec![StepViolation { clause: clause.to_string(), detail, shape: None }]
 }
 
 fn nperms(n: usize) -> usize {
@@ -221,6 +222,19 @@ impl SeqModel for C06 {
         let mut all = dump_all(&w.node.dbs);
         rank_opp_ids(&mut all);
         format!("{:?}|{:?}|{:?}|{}", w.model, w.snap, all, dir_digest(&w.ctx.dir))
+    }
+    fn roots(&self) -> Vec<Vec<usize>> {
+        // non-initial start states: an already persisted dataset, and one with a persisted removal
+        let find = |name: &str| self.letters.iter().position(|l| format!("{:?}", l) == name).unwrap();
+        let set_a = find("Set { key: \"a\", val: \"1\" }");
+        let set_b = find("Set { key: \"bb\", val: \"1\" }");
+        let snap = find("Snapshot { reclaim: false, order: 0 }");
+        let rm_a = find("Remove { key: \"a\" }");
+        let mut r = vec![vec![], vec![set_a, set_b, snap], vec![set_a, set_b, snap, rm_a, snap]];
+        if !self.extra_roots {
+            r.truncate(1);
+        }
+        r
     }
     fn enabled(&self, w: &W, letter: usize) -> bool {
         match &self.letters[letter] {
@@ -362,13 +376,14 @@ pub fn run(run: &mut Run) {
     let quick = run.quick();
     let m = C06::new(quick);
     let cfg = SeqConfig {
-        max_depth: crate::util::env_u64("NUNMC_DEPTH", if quick { 6 } else { 7 }) as usize,
+        max_depth: crate::util::env_u64("NUNMC_DEPTH", if quick { 5 } else { 8 }) as usize,
         workers: crate::util::workers(),
         max_states: if quick { 300_000 } else { 5_000_000 },
         budget: std::time::Duration::from_secs(if quick { 45 } else { 2400 }),
     };
     let res = explore(&m, &cfg);
     super::seq_report(run, &m, &res, &cfg);
+    run.assume("the search starts from three root states: empty database, {a,bb} persisted, {a,bb} persisted then a removed and persisted; the depth bound counts from each root");
     run.assume("every state reached by a snapshot letter is additionally restarted on a copy of its directory (so a depth-d history covers the d+1 step 'then restart')");
     run.assume("snapshots run with no concurrent writers (schedule quantifier not part of C06)");
     run.assume("start-up sequence of main.rs::start_db reproduced by world::Node::start (load key map, oplog flag, clean, create, load_all_dbs)");
